@@ -200,7 +200,12 @@ def anetOfJson (j : Json) : Except String ANet := do
   let pins ← (← Spydr.Proto.getArr j "pins").toList.mapM apinOfJson
   match ← Spydr.Proto.getStr j "kind" with
   | "scalar" => pure ⟨.scalar (← anameOfJson (← j.getObjVal? "name")), pins⟩
-  | "bit" => pure ⟨.bit (← strOf (← j.getObjVal? "bid")) (← strOf (← j.getObjVal? "bname")) (← Spydr.Proto.getNat j "idx"), pins⟩
+  | "bit" =>
+      let idx ← Spydr.Proto.getNat j "idx"
+      let iidx := match j.getObjVal? "iidx" with
+        | .ok v => (v.getNat?.toOption).getD idx
+        | .error _ => idx
+      pure ⟨.bit (← strOf (← j.getObjVal? "bid")) (← strOf (← j.getObjVal? "bname")) idx iidx, pins⟩
   | k => throw s!"net kind {k}"
 
 def acellOfJson (j : Json) : Except String ACell := do
